@@ -725,7 +725,8 @@ class DataLinkConnection(TransmissionControlObject):
                     self.state.SHUTDOWN = True
                     self.close()
 
-                if send_pdu.name == "I" and self.state.ESTABLISHED:
+                if send_pdu.name == "I":
+                    # also after close(), for what was queued before it
                     if self.recv_confs and self.recv_cnt != self.recv_ack:
                         self.log("piggyback ack " + str(self))
                         self.recv_ack = (self.recv_ack + self.recv_confs) % 16
